@@ -427,6 +427,50 @@ def rand_term(ctx, depth):
     return p
 
 
+def instance_reuse(ctx: Ctx, shapes, quick):
+    """a transform is a function of its input: ONE instance applied to dictionaries of different types, one after the other,
+    must give for each what a freshly built copy gives (the result type follows the input, not the first application)"""
+    K = [0, 1, 2]
+    terms = []
+    for _ in range(40 if quick else 600):
+        ks = tuple(sorted(ctx.rng.sample(K, ctx.rng.choice([1, 2, 3]))))
+        a = ("select", tuple(k for k in ks if ctx.rng.random() < 0.6), ks)
+        b = ("select", tuple(k for k in ks if k not in a[1]), ks)
+        terms.append(ctx.rng.choice([("conj", [a, b]), ("conj", [a]), ("comp", ("conj", [a, b]), ("select", ks, ks)), a]))
+    for t in terms:
+        keys = [torch.zeros(s, requires_grad=True) for s in shapes]
+        idx = {id(k): i for i, k in enumerate(keys)}
+        try:
+            tr = build_real(t, keys)
+        except Exception:  # noqa: BLE001
+            continue
+        req = sorted(idx[id(k)] for k in tr.required_keys)
+        tys = ["Gradients", "Jacobians", "TensorDict", "Gradients", "Jacobians"]
+        ctx.rng.shuffle(tys)
+        for ty in tys[:3]:
+            m = ctx.rng.choice([1, 2, 3])
+            entries = [(k, value_shape(ty, shapes[k], m, (2,))) for k in req]
+            try:
+                d = TYPES[ty]({keys[k]: torch.ones(s) for k, s in entries})
+            except Exception:  # noqa: BLE001
+                continue
+
+            def app(trf):
+                try:
+                    r = trf(d)
+                    return ("ok", type(r).__name__, sorted((idx[id(k)], tuple(v.shape)) for k, v in r.items()))
+                except Exception as e:  # noqa: BLE001
+                    return ("err", classify_exc(e))
+            used, fresh = app(tr), app(build_real(t, keys))
+            ctx.case(("reuse", t, ty, m), nontrivial=True)
+            ctx.count("instance_reuse_applications")
+            if used != fresh:
+                ctx.violation(f"the transform {sx(term_sx(t))}, already applied to other dictionaries, maps a {ty} to {used}; a freshly "
+                              f"built copy maps it to {fresh}", {"kind": "instance reuse", "term": sx(term_sx(t)), "input_type": ty,
+                                                               "shapes": [list(s) for s in shapes]})
+                return
+
+
 def main(ctx: Ctx):
     ctx.lean_gate()
     _FORM.seed(f"C14-form:{ctx.seed}")
@@ -460,6 +504,22 @@ def main(ctx: Ctx):
             compare(ctx, t, shapes)
     for t in (("conj", []), ("stack", [])):
         compare(ctx, t, shapes, rich=True)
+    # flat conjunctions / stacks of THREE members (the rules are not pairwise-neighbour rules: members 1 and 3 count too)
+    same_req = {}
+    for a in A:
+        b, _ = observe(a, shapes, None)
+        if b[0] == "ok":
+            same_req.setdefault(tuple(b[1]), []).append(a)
+    groups = [g for g in same_req.values() if len(g) >= 2]
+    for _ in range(250 if quick else 6000):
+        g = ctx.rng.choice(groups)
+        a, b, c = (ctx.rng.choice(g) for _ in range(3))
+        if ctx.rng.random() < 0.4:
+            c = a                              # first and last member equal: their outputs overlap, the middle one may not
+        for t in (("conj", [a, b, c]), ("stack", [a, b, c])):
+            compare(ctx, t, shapes)
+    ctx.count("three_member_lists")
+    instance_reuse(ctx, shapes, quick)
     ctx.cov["exhaustive_depth1"] = not quick
     if not quick:
         # depth 2, exhaustive up to behavioural equivalence of the depth<=1 sub-terms: one representative per
